@@ -44,15 +44,14 @@ func (f *FHDR) decode(octets []byte, pos *int) error {
 	*pos += 2
 
 	if f.FCtrl.FOptsLen > 0 {
+		// The options field is exactly FOptsLen bytes; whatever part of it
+		// cannot be decoded (unknown CID, truncated command) is skipped.
+		end := *pos + int(f.FCtrl.FOptsLen)
 		f.FOpts = NewMACCommandSet(f.FOpts.Message(), int(f.FCtrl.FOptsLen))
-		if err := f.FOpts.decode(octets, pos); err != nil {
-			if err == errUnknownMAC {
-				// Found an unknown MAC command. Skip forward the number of missing bytes
-				*pos += (int(f.FCtrl.FOptsLen) - f.FOpts.EncodedLength())
-				return nil
-			}
+		if err := f.FOpts.decodeBounded(octets, pos, end); err != nil {
 			return err
 		}
+		*pos = end
 	}
 	return nil
 }
